@@ -157,10 +157,6 @@ theorem getSub_some (h : SubHdr) (ns : List String) (fl : Flags) (pre : List Str
         Bool.and_self, Bool.true_and, if_true, List.head?_cons, Option.map_some, truthyO, ht, validNameO, List.headD_cons]
       cases fl.fail <;> cases h.required <;> simp
 
-def findP (n : String) : List (String × P) → Option P
-  | [] => .none
-  | (m, q) :: r => if m = n then some q else findP n r
-
 /-- what `handle_subcommands` does for one selected subcommand -/
 def processOne (lay : Mode → P → Cfg) (fl : Flags) (pre : List String) (n : String) (q : P) (cfg : Cfg) : Except Err Cfg :=
   match mergeLayer fl.mode (lay fl.mode q) n cfg with
